@@ -11,11 +11,6 @@ func (p *planner) analyzeScript() {
 
 	p.labelsJoinIdx = -1
 
-	p.metrics15Shortcut = AnalyzeMetrics15sShortcut(p.script)
-	if p.metrics15Shortcut {
-		return
-	}
-
 	p.simpleLabelOperation = make([]bool, len(pipeline))
 	for i, ppl := range pipeline {
 		if ppl.LabelFilter != nil {
@@ -24,6 +19,12 @@ func (p *planner) analyzeScript() {
 		if ppl.Parser != nil || ppl.Drop != nil {
 			break
 		}
+	}
+
+	// the shortcut keeps the label filters: planTS turns them into a filter of the selected series
+	p.metrics15Shortcut = AnalyzeMetrics15sShortcut(p.script)
+	if p.metrics15Shortcut {
+		return
 	}
 
 	for i, ppl := range pipeline {
@@ -87,8 +88,9 @@ func AnalyzeMetrics15sShortcut(script *logql_parser.LogQLScript) bool {
 			return false
 		}
 		if ppl.LineFilter != nil {
+			// only a filter that passes every line can be skipped: |= "" and |~ "" (!= "" and !~ "" pass none)
 			str, err := ppl.LineFilter.Val.Unquote()
-			if str != "" || err != nil {
+			if str != "" || err != nil || (ppl.LineFilter.Fn != "|=" && ppl.LineFilter.Fn != "|~") {
 				return false
 			}
 		}
